@@ -390,6 +390,14 @@ func (b *Batch) setFlagWithErr(f RecordFlag, i int, errs []error) {
 				// records in the split record.
 				from, to := b.findSplitRecord(idx)
 				for j := from; j <= to; j++ {
+					if b.recordStatuses[j].Flag == RecordFlagFilter {
+						// A filtered piece stays filtered: it is already
+						// terminal, and turning it back into an active
+						// record would shift the active-record indices of
+						// every entry a caller resolves after this call
+						// (filterCount would also no longer match).
+						continue
+					}
 					b.recordStatuses[j].Flag = f
 					b.recordStatuses[j].Error = err
 				}
